@@ -1,12 +1,12 @@
-\* behaviour generation (R): every distinct (canonical state, last edit) with an edit history reaching it
+\* behaviour generation (R) with Circuit.substitute: every distinct (canonical state, last edit) with a history reaching it
 CONSTANTS
   NAMES = {"a", "b"}
   CELLKINDS = {"and"}
   MAXNODES = 3
   MAXLINES = 3
-  MAXPIN = 2
+  MAXPIN = 1
   MAXDEPTH = 4
-  SUBIMPLS = {}
+  SUBIMPLS = {1, 3, 4, 5, 6, 7}
 SPECIFICATION Spec
 INVARIANT EmitHist
 VIEW View
